@@ -88,6 +88,14 @@ theorem async_no_deadlock (U : Under) {g : G} (hr : Reachable U g)
       e ≠ .readBegin ∧ e ≠ .seekPoll true ∧ e ≠ .seekPoll false ∧ e ≠ .closeBegin :=
   enabled_when_in_call (data_reachable hr).1 h
 
+/-- ReadPage can always complete (no livelock trap): from every reachable state in which the
+    consumer waits in `ReadPage` there is a path of at most 7 steps of the producer and of the
+    rendezvous (`quiet`: no new consumer call) followed by a delivery. (That a fair scheduler takes
+    such a path is not modelled.) -/
+theorem async_read_can_complete (U : Under) {g : G} (hr : Reachable U g) (hc : g.cpc = .reading) :
+    ∃ es r v g', Path U g (es ++ [.deliver r v]) g' ∧ es.length ≤ 7 ∧ ∀ e ∈ es, quiet e = true :=
+  read_can_complete hr hc
+
 /-- The trace validator run by `pqdriver` (`async.validate`) accepts a log iff it is a path of this
     transition system. -/
 theorem async_validate_iff_path (U : Under) (es : List Ev) (g : G) :
@@ -144,6 +152,15 @@ example : ∃ g, Reachable U0 g ∧ g.cpc ≠ .idle ∧ g.cpc ≠ .closed := by
   obtain ⟨g, hp, hq⟩ := check_path (U := U0) (es := [.readBegin]) (p := fun g => decide (g.cpc = .reading)) (by decide)
   have : g.cpc = .reading := by simpa using hq
   exact ⟨g, ⟨_, hp⟩, by simp [this]⟩
+
+/-- a reachable state with the consumer waiting in ReadPage while a stale page is on offer and a
+    seek is pending (hypotheses of `async_read_can_complete`) -/
+example : ∃ g, Reachable U0 g ∧ g.cpc = .reading ∧ g.seekCh = some (4, 1) := by
+  obtain ⟨g, hp, hq⟩ := check_path (U := U0)
+    (es := [.readBegin, .initPass, .pollEmpty, .bodyOffer (.page 0) 0, .handoff, .deliver (.page 0) 0,
+            .bodyOffer (.page 2) 0, .seekPoll false, .seekSend 4 1, .readBegin])
+    (p := fun g => decide (g.cpc = .reading ∧ g.seekCh = some (4, 1))) (by decide)
+  exact ⟨g, ⟨_, hp⟩, by simpa using hq⟩
 
 end async
 
